@@ -635,7 +635,7 @@ theorem insert_eq_spec {s : State} (hu : Inv s) (k : Kind) (id : Str) (actions :
   rw [startsWithDot_eq]
   by_cases h1 : isServerDefaultId id = true
   · simp [h1, InsertErr.cls]
-  simp only [h1, if_false]
+  simp only [h1]
   have hinv : hasInvalidChar id = (containsSlash id || containsBackslash id) := rfl
   rw [hinv]
   by_cases h2 : containsSlash id = true
@@ -651,7 +651,7 @@ theorem insert_eq_spec {s : State} (hu : Inv s) (k : Kind) (id : Str) (actions :
   · simp [h2, h3, h4, InsertErr.cls]
   by_cases h5 : anchorIsServerDefault b = true
   · simp [h2, h3, h4, h5, InsertErr.cls]
-  simp only [h2, h3, h4, h5, if_false, Bool.false_or, Bool.or_self, Bool.false_eq_true]
+  simp only [h2, h3, h4, h5, if_false, Bool.or_self, Bool.false_eq_true]
   rw [ruleToInsert_eq_newRule]
   have := insertAndMoveRule_eq_place (k := k) (r := newRule (s.get k) id actions) (a := a) (b := b)
     (hu k)
